@@ -235,3 +235,5 @@ pub mod util;
 pub mod holiday;
 pub mod festival;
 pub mod eightchar;
+#[cfg(feature = "verif")]
+pub mod verif;
